@@ -25,6 +25,7 @@ sys.path.insert(0, os.path.dirname(HERE))
 
 from harness.core import common, lean, scenarios  # noqa: E402
 from harness.core.common import InternalError, Outcome  # noqa: E402
+from harness.core.attach import AttachError  # noqa: E402
 
 
 class Ctx:
